@@ -209,6 +209,52 @@ def _corruptor(pid):
     return corrupt
 
 
+TAG_PREFIX = {"C04": ("C04_",), "C06": ("C06_", "C04_SameWritesSameHash"), "C07": ("C07_",), "C08": ("C08_",), "C09": ("C09_",)}
+
+
+def _validate_trace(c, sd, cfg, trace_path, what, cmds, ntr):
+    """code -> spec: TLC re-executes the recorded events with the specification's own actions.  A violated
+    property invariant = the real code's logged behaviour contradicts the specification (the failed
+    judgements are in the `err` set of the final state: <<line, op, tag>>)."""
+    res = vf.run_tlc(sd, "TraceMultiStore", cfg, c.scratch, workers=1, env={"TRACE_FILE": trace_path},
+                     timeout=3000, tag="TraceMultiStore-" + c.pid)
+    c.add("trace_events_validated", max(res.distinct - 1, 0))
+    if res.ok:
+        c.add("traces_validated_against_impl", ntr)
+        c.parts.append("%s: %d recorded traces / %d events accepted by TraceMultiStore (%s)" % (what, ntr, res.distinct - 1, cfg))
+        return res
+    st = res.final_state
+    errs = [(int(m.group(1)), m.group(2), m.group(3)) for m in re.finditer(r'<<(\d+), "(\w+)", "(\w+)">>', st.get("err", ""))]
+    if res.violated == "ModelExplainsCode":
+        # not a property verdict: the specification does not explain how the code commits
+        raise vf.MachineryError("recorded trace not explained by the specification (ModelExplainsCode): %s" % errs)
+    mine = [e for e in errs if e[2].startswith(TAG_PREFIX[c.pid])]
+    if not mine:
+        # e.g. the trace was not consumed: an event the specification has no enabled action for
+        raise vf.MachineryError("TraceMultiStore: %s without a failed judgement of %s (next line %s, failed judgements %s): "
+                                "the specification cannot explain the recorded events" % (res.violated, c.pid, st.get("l"), errs))
+    line = max(e[0] for e in mine) if mine else None
+    if line is None and "l" in st:
+        try:
+            line = int(st["l"]) - 1
+        except ValueError:
+            pass
+    ctx = []
+    if line:
+        with open(trace_path) as f:
+            for i, l in enumerate(f, 1):
+                if line - 8 <= i <= line:
+                    ctx.append(l.strip()[:2000])
+                if i > line:
+                    break
+    tag = [e for e in mine if e[0] == line]
+    summary = "%s: TLC invariant %s violated at trace line %s: %s" % (
+        what, res.violated, line, ("judgement %s failed at event %s" % (tag[0][2], tag[0][1])) if tag else "trace not accepted")
+    c.violation(summary, {"kind": "trace", "harness_cmd": cmds, "violated": res.violated, "line": line,
+                          "failed_judgements": errs, "context": ctx, "final_state": {k: v[:3000] for k, v in st.items()}})
+    return res
+
+
 def _traces(c, sd, thorough):
     cfg = "TraceMultiStore_%s.cfg" % c.pid
     allf = os.path.join(c.scratch, "trace-all.ndjson")
@@ -223,12 +269,7 @@ def _traces(c, sd, thorough):
                 shutil.copyfileobj(f, o)
             os.remove(out)
     what = "+".join(m for m, _, _ in _trace_cmds(c, thorough)) + " driver traces"
-    res = vf.validate_trace(c, sd, "TraceMultiStore", cfg, allf, what, cmds, ntr, timeout=3000)
-    if res.violated == "ModelExplainsCode":
-        # not a property verdict: the specification does not explain how the code commits
-        _s, _p = c.violations.pop()
-        os.remove(_p)
-        raise vf.MachineryError("recorded trace not explained by the specification (ModelExplainsCode): %s" % res.final_state.get("err"))
+    res = _validate_trace(c, sd, cfg, allf, what, cmds, ntr)
     known, foreign = _scan_tlc_output(res.stdout_path)
     _known(c, known, what)
     other = {t: n for t, n in foreign.items() if not t.startswith("Known_")}
